@@ -54,7 +54,7 @@ package trzsz
 //@ # b is one of the bytes the table promises to keep off the wire
 //@ pure protected(t *escapeTable, b int) bool = b != 238 && t.escapeCodes[b] != nil
 
-//@ func escapeData
+//@ func escapeData pure
 //@   nilable table
 //@   requires table != nil ==> tableWF(table)
 //@   ensures table == nil || table.totalCount == 0 ==> same(r0, data)
@@ -80,7 +80,8 @@ package trzsz
 //@ # form of x[0..nx): returns exactly the payload bytes whose codes were complete,
 //@ # never an error, and hands back the unconsumed rest.
 //@ func unescapeData
-//@   nilable table
+//@   nilable table, dst
+//@   assigns elems(dst)
 //@   ghost x map[int]int, nx int
 //@   requires table != nil ==> tableWF(table)
 //@   requires 0 <= nx
@@ -481,25 +482,25 @@ package trzsz
 
 //@ func trzszTransfer.recvLine
 //@   requires t.buffer != nil && tbWF(t.buffer)
-//@   assigns fields(t.buffer), recvd, bufLen, bufCap, bufArr, elemsof("byte")
+//@   assigns fields(t.buffer), recvd, bufLen, bufCap, bufArr, elemsof("byte"), wlog, wlen
 //@   ensures tbWF(t.buffer)
 //@ end
 
 //@ func trzszTransfer.recvCheck
 //@   requires t.buffer != nil && tbWF(t.buffer)
-//@   assigns fields(t.buffer), recvd, bufLen, bufCap, bufArr, elemsof("byte")
+//@   assigns fields(t.buffer), recvd, bufLen, bufCap, bufArr, elemsof("byte"), wlog, wlen
 //@   ensures tbWF(t.buffer)
 //@ end
 
 //@ func trzszTransfer.recvString
 //@   requires t.buffer != nil && tbWF(t.buffer)
-//@   assigns fields(t.buffer), recvd, bufLen, bufCap, bufArr, elemsof("byte")
+//@   assigns fields(t.buffer), recvd, bufLen, bufCap, bufArr, elemsof("byte"), wlog, wlen
 //@   ensures tbWF(t.buffer)
 //@ end
 
 //@ func trzszTransfer.recvInteger
 //@   requires t.buffer != nil && tbWF(t.buffer)
-//@   assigns fields(t.buffer), recvd, bufLen, bufCap, bufArr, elemsof("byte")
+//@   assigns fields(t.buffer), recvd, bufLen, bufCap, bufArr, elemsof("byte"), wlog, wlen
 //@   ensures tbWF(t.buffer)
 //@ end
 
@@ -507,21 +508,42 @@ package trzsz
 //@ func traceLogger.writeTraceLog trusted pure
 //@ end
 
-//@ func writeAll pure
+//@ # writeAll appends exactly data, in order, to the writer's log (and terminates: every
+//@ # successful Write consumes everything it was given)
+//@ func writeAll
+//@   assigns wlog, wlen
+//@   ensures r0 == nil ==> wlen[dst] == old(wlen)[dst] + len(data)
+//@   ensures r0 == nil ==> (forall k int {wlog[dst][k]} :: old(wlen)[dst] <= k && k < wlen[dst] ==> wlog[dst][k] == data[k - old(wlen)[dst]])
+//@   ensures forall k int {wlog[dst][k]} :: k < old(wlen)[dst] ==> wlog[dst][k] == old(wlog)[dst][k]
+//@   ensures forall w int {wlog[w]} :: w != dst ==> wlog[w] == old(wlog)[w]
+//@   ensures forall w int {wlen[w]} :: w != dst ==> wlen[w] == old(wlen)[w]
+//@   ensures wlen[dst] >= old(wlen)[dst]
 //@   loop 1
-//@     invariant 0 <= m && m <= len(data)
+//@     invariant 0 <= m && m <= l
+//@     invariant wlen[dst] == old(wlen)[dst] + m
+//@     invariant forall k int {wlog[dst][k]} :: old(wlen)[dst] <= k && k < wlen[dst] ==> wlog[dst][k] == data[k - old(wlen)[dst]]
+//@     invariant forall k int {wlog[dst][k]} :: k < old(wlen)[dst] ==> wlog[dst][k] == old(wlog)[dst][k]
+//@     invariant forall w int {wlog[w]} :: w != dst ==> wlog[w] == old(wlog)[w]
+//@     invariant forall w int {wlen[w]} :: w != dst ==> wlen[w] == old(wlen)[w]
+//@     decreases l - m
 //@ end
-//@ func trzszTransfer.writeAll pure
+//@ func trzszTransfer.writeAll
+//@   assigns wlog, wlen
 //@ end
-//@ func trzszTransfer.sendLine pure
+//@ func trzszTransfer.sendLine
+//@   assigns wlog, wlen
 //@ end
-//@ func trzszTransfer.sendString pure
+//@ func trzszTransfer.sendString
+//@   assigns wlog, wlen
 //@ end
-//@ func trzszTransfer.sendInteger pure
+//@ func trzszTransfer.sendInteger
+//@   assigns wlog, wlen
 //@ end
-//@ func encodeBytes pure
+//@ func encodeBytes
+//@   assigns wlog, wlen
 //@ end
-//@ func encodeString pure
+//@ func encodeString
+//@   assigns wlog, wlen
 //@ end
 
 //@ func isWindowsEnvironment pure
@@ -577,17 +599,41 @@ package trzsz
 //@ end
 //@ func trzszTransfer.recvHash
 //@   requires t.buffer != nil && tbWF(t.buffer)
-//@   assigns fields(t.buffer), recvd, bufLen, bufCap, bufArr, elemsof("byte")
+//@   assigns fields(t.buffer), recvd, bufLen, bufCap, bufArr, elemsof("byte"), wlog, wlen
 //@   ensures tbWF(t.buffer)
 //@   ensures r1 == nil ==> r0 != nil && r0 > old(alloc())
 //@ end
-//@ func trzszTransfer.sendHashAck pure
+//@ func trzszTransfer.sendHashAck
+//@   assigns wlog, wlen
 //@ end
 //@ func trzszTransfer.recvPrefixHash
 //@   nilable progress
 //@   requires t.buffer != nil && tbWF(t.buffer)
-//@   assigns fields(t.buffer), recvd, bufLen, bufCap, bufArr, elemsof("byte")
+//@   assigns fields(t.buffer), recvd, bufLen, bufCap, bufArr, elemsof("byte"), wlog, wlen
 //@   ensures tbWF(t.buffer)
 //@   loop 1
 //@     invariant tbWF(t.buffer)
+//@ end
+
+// ===========================================================================
+// C04 (continued)  the escaping writer and reader (pipeline.go)
+// ===========================================================================
+
+//@ # What an escapeWriter puts on its inner writer for p is exactly the escaped form of p:
+//@ # its length is encPos(len(p)), it agrees with the encoding relation, it contains no protected
+//@ # byte, and Write reports the whole of p as consumed.
+//@ func escapeWriter.Write
+//@   requires e.table != nil ==> tableWF(e.table)
+//@   assigns wlog, wlen
+//@   ensures r1 == nil ==> r0 == len(p)
+//@   ensures r1 == nil && (e.table == nil || e.table.totalCount == 0) ==> \
+//@       wlen[e.writer] == old(wlen)[e.writer] + len(p) && \
+//@       (forall k int {wlog[e.writer][k]} :: old(wlen)[e.writer] <= k && k < wlen[e.writer] ==> wlog[e.writer][k] == p[k - old(wlen)[e.writer]])
+//@   ensures r1 == nil && e.table != nil && e.table.totalCount != 0 ==> \
+//@       wlen[e.writer] == old(wlen)[e.writer] + encPos(view(e.table.escapeCodes), view(p), len(p)) && \
+//@       encAgrees(e.table, view(p), len(p), shift(wlog[e.writer], old(wlen)[e.writer]), wlen[e.writer] - old(wlen)[e.writer])
+//@   ensures r1 == nil && e.table != nil && e.table.totalCount != 0 ==> \
+//@       (forall k int {wlog[e.writer][k]} :: old(wlen)[e.writer] <= k && k < wlen[e.writer] ==> !protected(e.table, wlog[e.writer][k]))
+//@   ensures forall k int {wlog[e.writer][k]} :: k < old(wlen)[e.writer] ==> wlog[e.writer][k] == old(wlog)[e.writer][k]
+//@   ensures forall w int {wlog[w]} :: w != e.writer ==> wlog[w] == old(wlog)[w]
 //@ end
